@@ -1,5 +1,6 @@
 SPECIFICATION Spec
 CONSTANTS MaxLen = 2
+ Preloaded = FALSE
 INVARIANT Total
 INVARIANT Incremental
 INVARIANT SliceLaw
